@@ -72,6 +72,7 @@ type E2ECase struct {
 	FaultPct  int     `json:"fault_pct"`
 	MaxFaults int     `json:"max_faults"`
 	Decisions []Dec   `json:"decisions,omitempty"`
+	DistinctPre bool  `json:"distinct_pre,omitempty"`
 	// systematic exploration (replays use Decisions)
 	Explore   bool  `json:"-"`
 	Choices   []int `json:"-"`
@@ -87,6 +88,11 @@ type Event struct {
 	Fail    bool   `json:"fail,omitempty"`
 	PutList []int  `json:"put_list,omitempty"`
 	Cap     int32  `json:"cap"`
+	// Status the registry answered with; Fail = injected or (index DELETE) answered >= 400
+	Status int `json:"status,omitempty"`
+	// Dropped: subjects whose referrers tag vanished with this exchange although it is not
+	// theirs (the deleted index manifest was shared: content-addressed)
+	Dropped []int `json:"dropped,omitempty"`
 }
 
 type OpResult struct {
@@ -187,7 +193,7 @@ var artTypes = []string{"", "application/vnd.example.sbom", "application/vnd.exa
 var cfgTypes = []string{"application/vnd.oci.image.config.v1+json", "application/vnd.example.sig", "application/vnd.example.cfg"}
 
 func genE2E(r *common.Rand, thorough bool) *E2ECase {
-	c := &E2ECase{Seed: r.U64(), SkipGC: r.Chance(1, 4), NSubjects: 1 + r.Intn(3)}
+	c := &E2ECase{Seed: r.U64(), SkipGC: r.Chance(1, 4), NSubjects: 1 + r.Intn(3), DistinctPre: r.Chance(1, 3)}
 	if r.Chance(1, 2) {
 		c.NSubjects = 1
 	}
@@ -222,7 +228,7 @@ func genE2E(r *common.Rand, thorough bool) *E2ECase {
 	}
 	for s := range c.PreIndex {
 		if len(c.PreIndex[s]) == 0 {
-			if r.Chance(1, 6) {
+			if r.Chance(1, 3) {
 				c.PreIndex[s] = []int{} // an empty index exists
 				if r.Chance(1, 2) {
 					c.PreIndex[s] = []int{-1}
@@ -450,12 +456,23 @@ func runE2EInner(c *E2ECase, res *E2EResult) {
 			d.Annotations = c.Mans[k].Ann
 			descs = append(descs, d)
 		}
-		// the annotation keeps pre-existing indexes of different subjects byte-distinct
-		idx := ocispec.Index{Versioned: specs.Versioned{SchemaVersion: 2}, MediaType: ocispec.MediaTypeImageIndex, Manifests: descs,
-			Annotations: map[string]string{"org.example.pre": fmt.Sprint(s)}}
+		// exactly what oras-go writes (generateIndex): pre-existing indexes of different subjects
+		// with the same content - e.g. the empty index - are then ONE manifest in the registry;
+		// DistinctPre keeps them byte-distinct by an annotation
+		idx := ocispec.Index{Versioned: specs.Versioned{SchemaVersion: 2}, MediaType: ocispec.MediaTypeImageIndex, Manifests: descs}
+		if c.DistinctPre {
+			idx.Annotations = map[string]string{"org.example.pre": fmt.Sprint(s)}
+		}
 		body, _ := json.Marshal(idx)
 		tg, _ := remote.VerifBuildReferrersTag(subj[s].desc)
 		reg.PutManifest(repoName, ocispec.MediaTypeImageIndex, body, tg)
+	}
+	var statusMu sync.Mutex
+	statusOf := map[int]int{}
+	reg.Done = func(ex *fakereg14.Exchange, st int) {
+		statusMu.Lock()
+		statusOf[ex.Seq] = st
+		statusMu.Unlock()
 	}
 	repo := newRepo(reg)
 	repo.SkipReferrersGC = c.SkipGC
@@ -609,9 +626,25 @@ func runE2EInner(c *E2ECase, res *E2EResult) {
 					ev.Subject = c.Mans[o.Man].Subject
 				}
 			}
+			tagsBefore := reg.Tags(repoName)
 			g.remove(pick)
 			pick.release <- fakereg14.Decision{Fail: fail, Status: 500}
 			synctest.Wait()
+			statusMu.Lock()
+			ev.Status = statusOf[pick.ex.Seq]
+			statusMu.Unlock()
+			if cl == "idx-del" && ev.Status >= 400 {
+				ev.Fail = true // e.g. 404: the index was deleted by another tag's update
+			}
+			tagsAfter := reg.Tags(repoName)
+			for name, s2 := range tags {
+				if _, was := tagsBefore[name]; was {
+					if _, is := tagsAfter[name]; !is && s2 != ev.Subject {
+						ev.Dropped = append(ev.Dropped, s2)
+					}
+				}
+			}
+			sort.Ints(ev.Dropped)
 			ev.Cap = remote.VerifReferrersStateC14(repo)
 			res.Caps = append(res.Caps, ev.Cap)
 			res.Events = append(res.Events, ev)
